@@ -16,7 +16,11 @@ with open("/verif/seeded/README.md", "w") as f:
     for name, m in rows:
         f.write(f"| {name} | {m['property']} | {m['status']} | {', '.join(m['caught_by']) or '-'} | {(m.get('summary') or '').replace('|', '/')[:300]} | "
                 f"{(m.get('needs_to_manifest') or '').replace('|', '/')[:200]} |\n")
-    n = len(rows)
-    c = sum(1 for _, m in rows if m["status"].startswith("caught"))
-    f.write(f"\n{c} of {n} kept changes are caught by the quick tier of the check of their property (after strengthening where noted).\n")
+    from collections import Counter
+    cnt = Counter(m["status"] for _, m in rows)
+    f.write(f"\n{len(rows)} kept changes: " + "; ".join(f"{v} {k}" for k, v in sorted(cnt.items())) + ".\n\n"
+            "caught = the quick tier of the check of the change's own property (or of a listed check) reported it at the first run; "
+            "caught-after-strengthening = missed at first, the check was then strengthened generically (what was added is in the entry's meta.json and "
+            "in DESIGN.md 12.5) and its quick tier reports it now; caught-by-other-check = only the quick tier of a neighbouring property's check "
+            "reports it; caught-by-thorough-tier = no quick tier reports it, the thorough tier of the listed check does.\n")
 print("seeded/README.md:", len(rows), "seeds")
